@@ -9,7 +9,6 @@ import (
 	"runtime"
 	"strings"
 	"sync"
-	"sync/atomic"
 
 	protocol "github.com/hujm2023/go-sms-protocol"
 	"github.com/hujm2023/go-sms-protocol/cmpp"
@@ -667,10 +666,16 @@ func runHistories(r *core.Run, prop string) {
 func RaceWorkload(seed uint64, idx uint64, cold bool) (mismatch string, tasks, ops int) {
 	c := core.NewSeedChooser(core.Mix(seed, "C13/race", idx))
 	r := core.NewRun(c, core.Config{Property: "C13", Scenario: "concurrent", Mode: "race"}, nil)
+	r.Quiet = true // no harness locks or atomics between the tasks' library calls
 	nTasks := 2 + c.Size(30, 2, 4, 8)
 	var ts []*taskState
+	var trs []*core.Run
 	for i := 0; i < nTasks; i++ {
-		ts = append(ts, newTaskState(r, i, genHistory(c, "C13", i, 14), simnet.Compact))
+		// every task has its own (quiet) run context and chooser: nothing of the harness is shared between tasks
+		tr := core.NewRun(core.NewSeedChooser(core.Mix(seed, "C13/race-task", idx*64+uint64(i))), core.Config{Property: "C13", Scenario: "concurrent", Mode: "race"}, nil)
+		tr.Quiet = true
+		trs = append(trs, tr)
+		ts = append(ts, newTaskState(tr, i, genHistory(c, "C13", i, 14), simnet.Compact))
 	}
 	reference := func() string {
 		for _, t := range ts {
@@ -697,10 +702,13 @@ func RaceWorkload(seed uint64, idx uint64, cold bool) (mismatch string, tasks, o
 			return m, nTasks, 0
 		}
 	}
-	var ctr atomic.Uint64
+	// seeded Gosched at a subset of the yield sites; no shared counter (an atomic would order the tasks)
+	gosched := map[string]bool{}
+	for _, site := range []string{"writer.new", "writer.release", "writer.op", "stringer.new", "stringer.release", "stringer.op", "ucs2pool.get", "ucs2pool.put", "batch.run"} {
+		gosched[site] = core.Mix(seed, site, idx)%2 == 0
+	}
 	verifhook.YieldFn = func(site string, key ...int) {
-		n := ctr.Add(1)
-		if core.Mix(seed, site, n)%3 == 0 {
+		if gosched[site] {
 			runtime.Gosched()
 		}
 	}
@@ -715,7 +723,7 @@ func RaceWorkload(seed uint64, idx uint64, cold bool) (mismatch string, tasks, o
 			defer wg.Done()
 			<-start
 			for i, o := range t.ops {
-				lv, label, p := execOp(r, t, o)
+				lv, label, p := execOp(trs[t.id], t, o)
 				var m string
 				if p != nil {
 					m = fmt.Sprintf("task %d op %d %s panicked: %s", t.id, i, label, p.Value)
@@ -724,13 +732,13 @@ func RaceWorkload(seed uint64, idx uint64, cold bool) (mismatch string, tasks, o
 				if birth == nil {
 					birth = snapshot(live)
 				}
-				mu.Lock()
-				t.res = append(t.res, hres{kind: o.kind, snap: birth, label: label})
-				if m != "" && mismatch == "" {
-					mismatch = m
-				}
-				mu.Unlock()
+				t.res = append(t.res, hres{kind: o.kind, snap: birth, label: label}) // per task: no lock
 				if m != "" {
+					mu.Lock()
+					if mismatch == "" {
+						mismatch = m
+					}
+					mu.Unlock()
 					return
 				}
 			}
